@@ -243,6 +243,8 @@ macro_rules! unaryop {
 
 macro_rules! with_recursion_guard {
     ($parser:expr, $expr:expr) => {{
+        #[cfg(feature = "verif_hooks")]
+        crate::verif_hooks::recursion::note_sp();
         $parser.depth += 1;
         if $parser.depth > MAX_RECURSION {
             return Err(syntax_error(Cow::Borrowed(
